@@ -162,6 +162,34 @@ class EarlierResultChanged(Exception):
     pass
 
 
+SLICING_LOG = []      # (normal, position or None, "refused" | position sliced at): what define_slicing_coordinates did, per spec
+
+
+def flush_slicing(rep, spec, path, model):
+    """the positions accepted / refused by the real tool against the Lean model `Slicing.coords` on the exact values of the
+    header's domain corners (C07.default_position_is_centre, position_outside_refused, position_inside_kept)"""
+    log, SLICING_LOG[:] = [e[1:] for e in SLICING_LOG if e[0] == path], []        # (entries of other directories - replays - are dropped)
+    if not model or not log:
+        return
+    try:
+        H = oracle.parse(path, maxmins=False, data=False)
+        lo, hi = [J(x) for x in H["lo"]], [J(x) for x in H["hi"]]
+    except Exception:
+        return
+    uniq = sorted({(cn, pos, str(res)) for cn, pos, res in log}, key=str)
+    rs = leanio.driver([{"op": "slicing", "normal": cn, "pos": None if pos is None else J(pos), "lo": lo, "hi": hi} for cn, pos, _ in uniq])
+    for (cn, pos, res), m in zip(uniq, rs):
+        case = {"spec": spec, "normal": cn, "posname": "slicing", "pos": pos, "fields": [spec["fields"][0]], "limit": None, "serial": True, "cli": False}
+        if res == "refused":
+            ok = m.get("status") == "refused"
+        else:
+            ok = m.get("status") == "ok" and m["cn"] == cn and abs(m["pos"][0] / m["pos"][1] - float(res)) <= 1e-15 * max(1.0, abs(float(res)))
+        if ok:
+            rep.agree(); rep.count("slicing-position:" + ("refused" if res == "refused" else "kept"))
+        else:
+            rep.tie(f"normal {cn}, position {pos}: the tool {'refused' if res == 'refused' else 'sliced at ' + str(res)}, the Lean model Slicing.coords says {m}", case)
+
+
 def run_slice(path, fields, limit, serial, cn, pos, start=None, cache=None, cli_out=None):
     """cache: reuse one Mandoline object for several slices (the object keeps normal and position);
     cli_out: go through the console script (format "array", saved under this name) instead of the API"""
@@ -237,11 +265,15 @@ def run_case(ctx, rep, spec, cn, posname, pos, fields, limit, serial, model, pat
         rep.fail(f"the array {e} returned by an EARLIER slice of the same object changed when the object was used again "
                  "(results of a sweep over positions all end up holding the last plane)", case); return
     except ValueError as e:
+        if not cli and "outside the domain" in str(e):
+            SLICING_LOG.append((path, cn, pos, "refused"))
         if pos is not None and (pos < g or pos > G):
             return        # refused, as required
         rep.fail(f"slice raised ValueError: {e}", case); return
     except Exception as e:
         rep.fail(f"slice raised {type(e).__name__}: {e}", case); return
+    if not cli and out is not None and "slice_pos" in out:
+        SLICING_LOG.append((path, cn, pos, out["slice_pos"]))
     if pos is not None and (pos < g or pos > G):
         rep.fail("a position outside the domain was answered", case); return
     if pos is None:
@@ -442,6 +474,7 @@ def run(ctx, rep, model=True):
                     run_case(ctx, rep, spec2, cn, nm, pos, [names[0], "grid_level"], None, (cn + j) % 2 == 0, model, path, truth2,
                              batch=batch, previous=spec)
         flush_model(rep, batch)
+        flush_slicing(rep, spec, path, model)
     if not ctx.quick and not rep.violations:
         # real process pool
         spec = plotgen.random_spec(ctx.rng, ndims=3, nlev=2, nf=1, data="smallint", B=2, nblk=[2, 1, 1], origin=True, aniso=True)
